@@ -13,8 +13,8 @@ RULE = ("every randomised function and helper (incl. permute_incidence_fixed_sum
         "different numpy.random states and after different call histories; numpy.random.get_state() compared around every "
         "seeded call; the same seed used with different data values / statistics of the same sizes must show the same unit "
         "rearrangements (decoded from distinct data values); plus recorded-draw replay: the model must reproduce each run "
-        "from the seeded generator's log alone; non-trivial = every case; distinct by function, parameters and seed")
-LEVEL = ("theorems fy_map, pyShuffle_map, sbi_map, pwg_map, two_sample_shared_orders (the rearrangement is a function of the "
+        "from the seeded generator's log alone; utils.get_prng's decision table over every kind of seed argument (None, numpy.random, ints, numpy ints, floats, bool, str, RandomState and subclass, SHA256 and subclass, and seven rejected kinds) against Model/Prng.lean; non-trivial = every case; distinct by function, parameters and seed")
+LEVEL = ("theorems Prng.explicit_seed_isolated, instances_pass_through, number_is_fresh_sha; fy_map, pyShuffle_map, sbi_map, pwg_map, two_sample_shared_orders (the rearrangement is a function of the "
          "draws and the sizes/stratification only); determinism holds by construction in the model (a function of its draw "
          "list); model replay from the log alone validated against every randomised function")
 ASSUMPTIONS = ["global interpreter state (numpy.random) is observed by the harness, not modelled (partial)",
@@ -171,6 +171,61 @@ def run(ctx):
             ctx.violation("oracle", {"call": "Experiment." + which, "seed": seed, "history_of_seeds_on_the_same_object": hist, "group": grp,
                                      "issue": "a seeded in-place call gives a different result on an Experiment that was randomised before than on a fresh one with identical data",
                                      "fresh": str(ra)[:300], "used": str(rb)[:300]}, site="Experiment")
+    # ---- utils.get_prng as decision logic, against the model's table (Model/Prng.lean)
+    class _Sub(np.random.RandomState):
+        pass
+    def _values():
+        r = ctx.rng
+        return [("none", None), ("nprandom", np.random), ("number", r.randint(0, 2**40)), ("number", 0), ("number", np.int64(r.randint(0, 2**31))),
+                ("number", np.int32(r.randint(0, 2**31 - 1))), ("number", np.uint8(r.randint(0, 255))), ("number", float(r.randint(0, 2**30))), ("number", True),
+                ("string", "seed-%d" % r.randint(0, 999)), ("string", ""), ("randomstate", np.random.RandomState(r.randint(0, 2**31))), ("randomstate", _Sub(3)),
+                ("sha256", SHA256(r.randint(0, 2**31))), ("sha256", RecSHA256(r.randint(0, 2**31))), ("other", [1, 2]), ("other", (3,)), ("other", b"abc"),
+                ("other", np.array([1])), ("other", 1 + 2j), ("other", {"seed": 1}), ("other", np.random.default_rng(1)), ("other", object())]
+    for _ in range(ctx.n(4, 40)):
+        vals = _values()
+        outs_m = run_model(["getprng|" + k for k, _ in vals])
+        for (kind, v), om in zip(vals, outs_m):
+            np.random.seed(ctx.rng.randint(0, 10**6)); np.random.random(ctx.rng.randint(0, 4))
+            st = np.random.get_state()
+            if isinstance(v, SHA256):
+                before = (v.baseseed, v.counter, getattr(v, "randbits", None), getattr(v, "randbits_remaining", None))
+            elif isinstance(v, np.random.RandomState):
+                before = v.get_state()[1].copy()
+            r = guarded(utils.get_prng, v)
+            read_global = not np.array_equal(np.random.get_state()[1], st[1]) or np.random.get_state()[2] != st[2]
+            if r[0] != "ok":
+                got = "ValueError" if "ValueError" in str(r[1]) else "error:" + str(r[1])[:80]
+            elif kind == "none":
+                np.random.set_state(st); exp_seed = np.random.randint(0, 10**10, dtype=np.int64)
+                ref = SHA256(exp_seed)
+                got = "fresh-sha256-from-global-draw" if type(r[1]) is SHA256 and (r[1].baseseed, r[1].counter) == (ref.baseseed, ref.counter) \
+                    and [r[1].randint(0, 10**6) for _ in range(3)] == [ref.randint(0, 10**6) for _ in range(3)] else "something-else:" + repr(r[1])[:80]
+            elif r[1] is np.random.mtrand._rand:
+                got = "global-randomstate"
+            elif r[1] is v:
+                if isinstance(v, SHA256):
+                    unchanged = before == (v.baseseed, v.counter, getattr(v, "randbits", None), getattr(v, "randbits_remaining", None))
+                else:
+                    unchanged = np.array_equal(before, v.get_state()[1])
+                got = "same-object" if unchanged else "same-object-but-advanced"
+            elif type(r[1]) is SHA256:
+                ref = SHA256(v)
+                got = "fresh-sha256-of-seed" if (r[1].baseseed, r[1].counter) == (ref.baseseed, ref.counter) \
+                    and [r[1].randint(0, 10**6) for _ in range(3)] == [ref.randint(0, 10**6) for _ in range(3)] else "sha256-of-something-else"
+            else:
+                got = "something-else:" + repr(r[1])[:80]
+            # the "none"/"nprandom" rows read the global generator only when drawn from (None draws; np.random is handed out untouched)
+            got_line = got + "|" + ("1" if (read_global or kind == "nprandom") else "0")
+            ctx.case(("get_prng", kind, type(v).__name__), True); ctx.count("get_prng-" + kind)
+            if got_line != om:
+                # the table no longer corresponds; is this also an input on which the property itself fails?
+                fails = (kind in ("number", "string") and got != "fresh-sha256-of-seed") or \
+                        (kind not in ("none", "nprandom") and read_global) or got == "same-object-but-advanced"
+                ctx.violation("oracle" if fails else "correspondence",
+                              {"call": "utils.get_prng", "seed_argument": repr(v)[:120], "kind": kind, "impl": got_line, "model": om,
+                               "issue": ("an explicit seed is not interchangeable with SHA256(seed) / touches numpy's global generator" if fails else
+                                         "correspondence Model/Prng.lean getPrng <-> utils.get_prng no longer checks for this kind of seed argument; "
+                                         "no input found on which reproducibility/isolation itself fails")}, site="get_prng", no_input=not fails)
     # ---- the model reproduces every run from the seeded generator's log alone
     ops, meta = rt.run_recorded(ctx, names, ctx.n(25, 400))
     outs_m = run_model(ops)
